@@ -477,6 +477,24 @@ func vfRunC17Ls(ctx *vfCtx, c vfCaseC17Ls) {
 	case "stat_t":
 		fi = &vfLsInfo{base, &syscall.Stat_t{Uid: c.FI.UID, Gid: c.FI.GID, Nlink: c.Nlink}}
 		wantUID, wantGID, wantLinks = fmt.Sprint(c.FI.UID), fmt.Sprint(c.FI.GID), c.Nlink
+	case "uidgid+ext":
+		// owner callbacks together with extended data (seed C17-d)
+		b2 := base
+		b2.d.Ext = []vfExt{{[]byte("k@v"), []byte("data")}}
+		fi = &vfFileInfoOwnerExt{vfFileInfoOwner{b2}}
+		wantUID, wantGID = fmt.Sprint(c.FI.UID), fmt.Sprint(c.FI.GID)
+	case "stat_t+ext":
+		b2 := base
+		b2.d.Ext = []vfExt{{[]byte("k@v"), []byte("data")}}
+		b2.d.SysStat, b2.d.SUID, b2.d.SGID, b2.d.Nlink = true, c.FI.UID, c.FI.GID, c.Nlink
+		fi = &vfFileInfoExt{b2}
+		wantUID, wantGID, wantLinks = fmt.Sprint(c.FI.UID), fmt.Sprint(c.FI.GID), c.Nlink
+	case "uidgid+stat_t":
+		// both sources: the callbacks are the documented override, as in the structured attributes
+		b2 := base
+		b2.d.SysStat, b2.d.SUID, b2.d.SGID, b2.d.Nlink = true, c.FI.UID+1, c.FI.GID+1, c.Nlink
+		fi = &vfFileInfoOwner{b2}
+		wantUID, wantGID = fmt.Sprint(c.FI.UID), fmt.Sprint(c.FI.GID)
 	default:
 		fi = &base
 	}
@@ -509,6 +527,22 @@ func vfRunC17Ls(ctx *vfCtx, c vfCaseC17Ls) {
 	}
 	if m[9] != string(c.FI.Name) {
 		ctx.Failf("C17/ls/name", "long name %q ends in %q, the entry is called %q", text, m[9], c.FI.Name)
+	}
+	// the structured attributes the same entry is sent with must tell the same story about the owner
+	if frame, err := sftp.VfSendBytes(sftp.VfNewStatResponse(1, fi)); err == nil && len(frame) > 4 && c.SysKnd != "filestat" {
+		if ap, _, derr := vfDecodeBody(frame[4:]); derr == nil && ap.Attrs != nil {
+			au, ag := "0", "0"
+			if ap.Attrs.Flags&vfAttrUIDGID != 0 {
+				au, ag = fmt.Sprint(ap.Attrs.UID), fmt.Sprint(ap.Attrs.GID)
+			}
+			lu, lg := m[3], m[4]
+			if c.Lookup {
+				au, ag = "u"+au, "g"+ag
+			}
+			if au != lu || ag != lg {
+				ctx.Failf("C17/ls/owner-vs-attrs", "long name %q shows owner %s:%s, the attributes of the same entry carry %s:%s (sys=%s)", text, lu, lg, au, ag, c.SysKnd)
+			}
+		}
 	}
 	ctx.Class("sys=" + c.SysKnd)
 	if os.FileMode(c.FI.Mode)&os.ModeType != 0 || os.FileMode(c.FI.Mode)&(os.ModeSetuid|os.ModeSetgid|os.ModeSticky) != 0 {
@@ -562,7 +596,8 @@ func TestVerifC17(t *testing.T) {
 			c.FI.Size = int64(rapid.SampledFrom([]uint64{0, 1, 99999999, 100000000, 1 << 40, 1<<40 + 7}).Draw(rt, "size"))
 			now := time.Now().Unix()
 			c.FI.Mtime = rapid.SampledFrom([]int64{0, 1000000000, now - 86400, now - 170*86400, now - 200*86400, now - 3*365*86400, now + 86400}).Draw(rt, "mtime")
-			c.SysKnd = rapid.SampledFrom([]string{"none", "uidgid", "filestat", "stat_t"}).Draw(rt, "sys")
+			c.FI.SysStat = false // what Sys() returns is this sub-check's own dimension
+			c.SysKnd = rapid.SampledFrom([]string{"none", "uidgid", "filestat", "stat_t", "uidgid+stat_t", "uidgid+ext", "stat_t+ext"}).Draw(rt, "sys")
 			c.Lookup = rapid.Bool().Draw(rt, "lookup")
 			c.Nlink = uint64(rapid.IntRange(1, 12345).Draw(rt, "nlink"))
 			return c
